@@ -916,8 +916,8 @@ def storage_conformance(files, jobs, wd):
         for line in open(f):
             e = json.loads(line)
             j = jb.get(e.get("job"))
-            if not j or e.get("faulted") or not j.get("seedname") or any("argk" not in q for q in j["reqs"]) or e.get("timeouts"):
-                continue
+            if not j or e.get("faulted") or e.get("raw") or not j.get("seedname") or any("argk" not in q for q in j["reqs"]) or e.get("timeouts"):
+                continue            # (raw rounds have no storage-call log: nothing stands between the server and its backend there)
             key = (e["backend"], len(e["reqs"]))
             g = groups[key]
             g.append({"t": "start", "run": e["run"], "seedname": j["seedname"], "shapes": [{"op": q["op"], "argk": q["argk"], "lvl": q["lvl"]} for q in j["reqs"]]})
@@ -1051,6 +1051,26 @@ def engine_conc(pid, tier, evidence=True, focus=None):
         jobs.append({"id": f"r{i}", "mode": "random", "backend": backend, "instances": inst, "cfg": {"days": 14, "versions": 100},
                      "seedname": sdn, "seed": CONC_SEEDS[sdn], "reqs": [{"op": o, "argk": a, "lvl": "http"} for o, a in tr],
                      "rounds": 6, "rseed": rng.randint(1, 2**31)})
+    # ---- (4) stress without the harness in between: every server owns its SqliteStorage object itself (whatever the backend
+    # type overrides beyond `txn` is in force, as in the executable), four requests start together, the OS schedules them
+    STRESS = [("Seed3", [("GetSnapshot", "nil"), ("AddSnapshot", "latest"), ("AddVersion", "latest"), ("GetSnapshot", "nil")]),
+              ("Seed3", [("AddSnapshot", "latest"), ("AddSnapshot", "mid"), ("GetSnapshot", "nil"), ("GetChildVersion", "latest")]),
+              ("Seed2b", [("AddVersion", "latest"), ("AddVersion", "latest"), ("GetChildVersion", "latest"), ("AddSnapshot", "latest")]),
+              ("Seed0", [("AddVersion", "nil"), ("AddVersion", "rnd"), ("GetChildVersion", "nil"), ("GetSnapshot", "nil")]),
+              ("Seed6", [("AddSnapshot", "latest"), ("GetSnapshot", "nil"), ("GetSnapshot", "nil"), ("AddSnapshot", "mid")])]
+    nstress = 0
+    for i, (sdn, reqs4) in enumerate(STRESS):
+        ops4 = tuple(sorted(set(o for o, _ in reqs4)))
+        if focus is not None and not any(tuple(sorted((a, b))) in focus for a in ops4 for b in ops4):
+            continue
+        for rep in range(1 if tier == "quick" else 6):
+            for lvl in ("http", "lib"):
+                if lvl == "lib" and sdn == "Seed0":
+                    continue
+                jobs.append({"id": f"s{i}-{lvl}-{rep}", "mode": "random", "raw": True, "backend": "sqlite", "instances": "multi", "cfg": {"days": 14, "versions": 100},
+                             "seedname": sdn, "seed": CONC_SEEDS[sdn], "reqs": [{"op": o, "argk": a, "lvl": lvl} for o, a in reqs4],
+                             "rounds": 60 if focus is not None else 150, "max_rounds": 150, "rseed": rng.randint(1, 2**31)})
+                nstress += 1
     t1 = time.time()
     files, nrounds, perjob = run_conc_jobs(binary, jobs, wd)
     t2 = time.time()
